@@ -53,6 +53,13 @@ CLAIMS = {
          "The run checks, on the implementation, that each literal denotes the intended characters for every escape in every style and for random "
          "strings in all 16 styles, and compares with the model. Known finding K01: raw triple-quoted literals containing U+0000/U+10FFFF are "
          "rejected (ANTLR runtime wildcard)."),
+ "C13": ("Theorems: every in-range int written in decimal (sign included, so the most negative int too) and every hex spelling denotes exactly "
+         "its number and a literal yields a value only in range; likewise uint; int()/uint() of a double is truncation toward zero (proved against the "
+         "exact value m*2^e) or an error for NaN, infinities and out-of-range values; int<->uint exact or error; double(int) is SpecFloat's nearest-even "
+         "rounding; string() then int()/uint() returns the original (decimal printer/parser inverse, proved for all 64-bit values); bytes(s) then string() "
+         "returns s (UTF-8 encode/decode inverse for all scalar values). Double literals, double->text (shortest digits) and text->double are modelled "
+         "exactly but their round trip is only tested (partial lemma). Tied to the code by boundary sets and random 64-bit patterns in every literal form "
+         "and through every conversion, with the laws evaluated on the implementation's answers; debug and release in the thorough tier."),
  "C06": ("Theorems that Eval.eval (a structural Fixpoint transcribing Value::resolve) returns the left operand's outcome "
          "and host-call log alone when && / || are decided by it, evaluates exactly one branch of ?:, and propagates a "
          "left error - for every context and operand expression, hence at every depth and inside macro bodies. Tied to the "
